@@ -476,9 +476,10 @@ def limitRows {α : Type} (offset limit : Option Nat) (rows : List α) : List α
   | none => r
 
 /-- The whole pipeline for a list of flows (shard × {memtable, segments}), each a list of tagged
-rows. -/
-def runFlows (p : Plan) (zeroLast : Bool) (flows : List (List TRow)) : AList Key :=
-  coordinate p (flows.map fun fl => intoPartial zeroLast (sinkAgg p fl))
+rows. `zl i` is the iteration-order choice of the `i`-th flow's sink map (each sink has its own
+randomly seeded `HashMap`). -/
+def runFlows (p : Plan) (zl : Nat → Bool) (flows : List (List TRow)) : AList Key :=
+  coordinate p (flows.zipIdx.map fun x => intoPartial (zl x.2) (sinkAgg p x.1))
 
 /-! ### the reference fold (specification) on the rows of one group -/
 
